@@ -11,6 +11,9 @@ random real / integer / plateau / offset / micro-amplitude series.
 Round 3 (audit items 24-27): purity on the exception path, rejected calls between two in-domain calls, call histories
 f(A); f(B); f(A), options next to the ends of their ranges, silent / constant / strictly one-signed records, the two
 components in different containers.
+Round 5 (audit items 28-33): scalar forms of a_ref / b / cut_off / n_cyc (np.float32, np.int64, bool, np.bool_, mutable 0-d arrays
+reused over consecutive calls), bool-dtype records, one- and two-sample records, results owned by the caller (overwritten and
+asked for again), tie placement fixed once per tree from probe records.
 """
 import itertools
 import math
@@ -62,14 +65,33 @@ RULE = ('cases = calls of the real functions. Exhaustive A: every non-constant s
         'read-only, non-contiguous, float32 with float64, int64 / int32 / list of ints with float64); (d) item 25 - f(A); f(B); '
         'f(A) with B of another length (n/2, n-1, n+7, 2n+1; arrays and lists), B = A with two interior samples exchanged, B = A '
         'with exactly one option changed (a_ref, b, cut_off, n_cyc, scalar <-> array b, second component), non-default options. '
+        'Round 5, on every audit block (every third random case, 120-sample window): (e) item 29 - both records as on/off pulses '
+        '(sample > median) held as bool ndarray / list and tuple of bool / list of np.bool_ / non-contiguous / read-only bool '
+        'array through all six functions, and as one component next to a float64 / int64 one; one- and two-sample records '
+        '([c], [0], [c,c], [c,-c], [0,c], [c,0], [c,d]; float64 / int64 / float32 / bool arrays, lists, tuples, read-only; scalar '
+        'and 3-entry b) through every function (series functions when non-constant), constant records of ONE sample; (f) item 28 - '
+        'a_ref, b, cut_off, n_cyc as np.float32 scalars, 0-d float64 / float32 arrays (the same objects through ncyc, combined, '
+        'gm, amp, ncyc in turn), np.int64 scalars, 0-d int64 arrays, b = True / np.True_ / 0-d bool, cut_off = False / np.False_ / '
+        '0-d bool; values float32-representable, float32 b in {1/16, 1/8, 1/4, 1/2, 1}; (g) item 32 - for all six functions '
+        '(ndarray records with ndarray b; tuple records with tuple b = hashable arguments): the result shares no memory with an '
+        'argument, every entry of it is overwritten, the same call again gives the first value bit for bit; (h) item 33 - '
+        'install() calls ncyc / amp / combined on five probe records with tied maxima and fixes first / last placement for '
+        'the tree; every later call is judged with that convention only. '
         'distinct = digest(series, container); non-trivial = non-constant series.')
-ASSUMPTIONS = ['NaN-free real input of any real dtype and container (integers of magnitude <= 2**53 so that the float64 '
-               'oracle holds the same numbers); constant series are not judged by the two peak-only series functions (excluded by the '
+ASSUMPTIONS = ['NaN-free real input of any real dtype and container (bool records are the numbers 0 / 1, as the library casts '
+               'them; integers of magnitude <= 2**53 so that the float64 '
+               'oracle holds the same numbers); one-sample records are constant records; constant series are not judged by the two peak-only series functions (excluded by the '
                'statement; the clean code raises IndexError). For the power-law functions a constant record is valid input: all-zero '
                '= no half cycle (cycles and amplitude exactly 0, also as one component of gm / combined), constant c != 0 = one '
                'half cycle of amplitude |c| (one maximal run of one strict sign)',
                'half-cycle peaks = largest |value| of each maximal run of one strict sign (oracles/peaks.excursions); on '
-               'ties the step of a cumulative series may sit at the first or at the last sample attaining the maximum',
+               'ties the step of a cumulative series may sit at the first or at the last sample attaining the maximum - ONE of '
+               'the two per tree and function (fixed at install from five probe records; probes that disagree are a violation)',
+               'numeric options are judged in every scalar form (python float / int / bool, numpy scalars of any real dtype, '
+               '0-d arrays; a 0-d array b is a scalar b, also for the combined function); a float32 b whose reciprocal is not '
+               'exact in float32 is outside the range of validity of the 1e-9 tolerance and is not driven',
+               'a result belongs to the caller: it shares no memory with an argument and overwriting it has no effect on a later '
+               'identical call (bit for bit); a read-only result is not overwritten (counted)',
                'a peak whose amplitude equals cut_off*max|x| to within 4 ulps may be kept or dropped (the statement does '
                'not fix the side and the product is inexact)',
                'cases whose powers (|p|/a_ref)^(1/b) or |p|^(1/b) leave [1e-280, 1e280] are counted, not judged; likewise the inverse '
@@ -98,14 +120,14 @@ _MIN_QUICK = {'amp.length': 57000, 'amp.nondecreasing': 57000, 'amp.scales-linea
               'args.unchanged': 340000, 'array-b column==scalar-b': 2400,
               'array-b permutation==column permutation': 1400, 'b.accepts-sequences': 1200,
               'combined(x,x)==2^b*amp(x)': 4500, 'combined.length': 10000, 'combined.nondecreasing': 10000,
-              'combined==reference': 10000, 'container-form==float64-array': 6600, 'delta.length': 110000,
+              'combined==reference': 10000, 'container-form==float64-array': 9500, 'delta.length': 110000,
               'delta.shift-invariant': 51000, 'delta.sum|d|==TV': 110000, 'delta.zero-off-peaks': 110000,
               'delta.|sum d|==|end-start|': 110000, 'gm(x,x)==amp(x)': 5000, 'gm(x,y)==sqrt(amp(x)*amp(y))': 1900,
               'gm.length': 13000, 'gm==sqrt(amp0*amp1)': 54000, 'int-input==float-input': 21000,
               'inverse(cut_off=0)': 5700, 'inverse(cut_off>0)==a_ref*(S_all/S_kept)^b': 3900,
               'long-record(>2**16) driven': 2, 'matrix(n*nb>2**22) driven': 1, 'ncyc.accepts-sequences': 2100,
               'ncyc.joint-scaling-invariant': 2200, 'ncyc.length': 24000, 'ncyc.nondecreasing': 24000,
-              'ncyc==reference': 65000, 'option-form==plain-float': 3400, 'pseudo.length': 110000,
+              'ncyc==reference': 65000, 'option-form==plain-float': 19000, 'pseudo.length': 110000,
               'pseudo.shift-invariant': 51000, 'pseudo.sum==TV/2+offset/2*sign(last move)': 110000,
               'pseudo.zero-off-peaks': 110000, 'result.stable-after-next-call': 1800,
               'special-scale series driven': 230, 'power-law at extreme scale driven': 240,
@@ -113,13 +135,16 @@ _MIN_QUICK = {'amp.length': 57000, 'amp.nondecreasing': 57000, 'amp.scales-linea
               'args.unchanged-after-raise': 1300, 'result.same-after-rejected-call': 2000,
               'result.depends-on-arguments-only': 3900, 'edge-parameters driven': 190,
               'silent-record: cycles==0, amplitude==0': 350, 'combined(x,silent)==amp(x)': 350, 'gm(x,silent)==0': 700,
-              'constant-record: one half cycle': 350, 'one-signed record driven': 170}
+              'constant-record: one half cycle': 350, 'one-signed record driven': 170,
+              # round 5 (option-form / container-form raised: scalar forms of the options, bool forms of the records)
+              'result.owned-by-caller': 4300, 'short-record(1-2 samples): finite result of the record length': 950,
+              'tie-placement: one convention per tree': 24}
 # thorough: the enumerations grow 5x (integer variants at every length), the random part 10x (about half of a run)
 _MIN_THOROUGH = {'amp.length': 520000, 'amp.nondecreasing': 520000, 'amp.scales-linearly': 18000,
                  'amp==reference': 1700000, 'args.unchanged': 2600000, 'array-b column==scalar-b': 24000,
                  'array-b permutation==column permutation': 14000, 'b.accepts-sequences': 11000,
                  'combined(x,x)==2^b*amp(x)': 35000, 'combined.length': 97000, 'combined.nondecreasing': 97000,
-                 'combined==reference': 97000, 'container-form==float64-array': 63000, 'delta.length': 840000,
+                 'combined==reference': 97000, 'container-form==float64-array': 90000, 'delta.length': 840000,
                  'delta.shift-invariant': 260000, 'delta.sum|d|==TV': 840000, 'delta.zero-off-peaks': 840000,
                  'delta.|sum d|==|end-start|': 840000, 'gm(x,x)==amp(x)': 40000,
                  'gm(x,y)==sqrt(amp(x)*amp(y))': 19000, 'gm.length': 120000, 'gm==sqrt(amp0*amp1)': 520000,
@@ -127,7 +152,7 @@ _MIN_THOROUGH = {'amp.length': 520000, 'amp.nondecreasing': 520000, 'amp.scales-
                  'inverse(cut_off>0)==a_ref*(S_all/S_kept)^b': 32000, 'long-record(>2**16) driven': 8,
                  'matrix(n*nb>2**22) driven': 4, 'ncyc.accepts-sequences': 20000,
                  'ncyc.joint-scaling-invariant': 22000, 'ncyc.length': 220000, 'ncyc.nondecreasing': 220000,
-                 'ncyc==reference': 620000, 'option-form==plain-float': 33000, 'pseudo.length': 840000,
+                 'ncyc==reference': 620000, 'option-form==plain-float': 180000, 'pseudo.length': 840000,
                  'pseudo.shift-invariant': 260000, 'pseudo.sum==TV/2+offset/2*sign(last move)': 840000,
                  'pseudo.zero-off-peaks': 840000, 'result.stable-after-next-call': 18000,
                  'special-scale series driven': 2300, 'power-law at extreme scale driven': 2400,
@@ -135,7 +160,10 @@ _MIN_THOROUGH = {'amp.length': 520000, 'amp.nondecreasing': 520000, 'amp.scales-
                  'args.unchanged-after-raise': 12000, 'result.same-after-rejected-call': 18000,
                  'result.depends-on-arguments-only': 35000, 'edge-parameters driven': 1700,
                  'silent-record: cycles==0, amplitude==0': 3100, 'combined(x,silent)==amp(x)': 3100, 'gm(x,silent)==0': 6300,
-                 'constant-record: one half cycle': 3100, 'one-signed record driven': 1500}
+                 'constant-record: one half cycle': 3100, 'one-signed record driven': 1500,
+                 # round 5
+                 'result.owned-by-caller': 40000, 'short-record(1-2 samples): finite result of the record length': 9000,
+                 'tie-placement: one convention per tree': 24}
 MIN_EVALS = {'quick': _MIN_QUICK, 'thorough': _MIN_THOROUGH}
 CTX = None
 
@@ -174,7 +202,7 @@ def _domain(values, const_ok=False):
 def _domain_any(values):
     """(python-float list, oracle excursion peaks, is_constant) or None."""
     if isinstance(values, np.ndarray):
-        if values.ndim != 1 or values.dtype.kind not in 'iuf' or (values.dtype.kind == 'f' and values.dtype.itemsize not in (4, 8)):
+        if values.ndim != 1 or values.dtype.kind not in 'iufb' or (values.dtype.kind == 'f' and values.dtype.itemsize not in (4, 8)):
             return None
         key = ('a', values.dtype.str, values.tobytes())
     elif isinstance(values, (list, tuple)):
@@ -191,8 +219,8 @@ def _domain_any(values):
     res = 0
     try:
         a = np.asarray(values)
-        if a.ndim == 1 and a.size >= 2 and a.dtype.kind in 'iuf':
-            exact = a.dtype.kind == 'f' or int(np.max(np.abs(a.astype(object)))) <= 2 ** 53
+        if a.ndim == 1 and a.size >= 1 and a.dtype.kind in 'iufb':      # round 5: bool records, one-sample records
+            exact = a.dtype.kind in 'fb' or int(np.max(np.abs(a.astype(object)))) <= 2 ** 53
             a = a.astype(float)
             if exact and np.all(np.isfinite(a)):
                 vals = a.tolist()
@@ -323,10 +351,22 @@ def check_pseudo(ctx, values, result):
 
 
 # --------------------------------------------------------------------------------------------- monitors: power law
+# Round 5 (audit item 33): where the step of a cumulative series sits when several samples of one excursion attain its
+# maximum is not fixed by the statement, but it is ONE convention per tree: install() determines it from probe records
+# (through the monitored functions, judged two-sided) and every later call is judged with that convention only.
+CONV = {'ncyc': None, 'amp': None, 'comb': None}
+
+
+def _wheres(key, has_ties):
+    if not has_ties:
+        return ('first',)
+    return (CONV[key],) if CONV[key] is not None else ('first', 'last')
+
+
 def _ncyc_refs(n, peaks, flags, a_ref, b):
     has_edge = 'edge' in flags
     has_ties = any(f != l for (f, l, _m) in peaks)
-    for wh in (('first', 'last') if has_ties else ('first',)):
+    for wh in _wheres('ncyc', has_ties):
         for ek in ((True, False) if has_edge else (True,)):
             yield np.array(C.n_cyc_series(n, peaks, a_ref, b, flags, ek, wh))
 
@@ -377,9 +417,9 @@ def check_ncyc(ctx, values, a_ref, b, cut_off, result):
                   % (first[1], first[2], first[3], a_ref, bj, cut_off, vals[:10]))
 
 
-def _amp_refs(n, peak_lists, n_cyc, b):
+def _amp_refs(n, peak_lists, n_cyc, b, key='amp'):
     has_ties = any(f != l for pk in peak_lists for (f, l, _m) in pk)
-    for wh in (('first', 'last') if has_ties else ('first',)):
+    for wh in _wheres(key, has_ties):
         yield np.array(C.cyc_amp_series(n, peak_lists, n_cyc, b, wh))
 
 
@@ -450,7 +490,7 @@ def check_gm(ctx, values0, values1, n_cyc, b, result):
     for j, bj in enumerate(bs):
         first = None
         ok = False
-        for wh in ('first', 'last'):
+        for wh in _wheres('amp', True):
             a0 = np.array(C.cyc_amp_series(n, [d0[1]], n_cyc, bj, wh))
             a1 = np.array(C.cyc_amp_series(n, [d1[1]], n_cyc, bj, wh))
             ref = np.sqrt(a0) * np.sqrt(a1)      # the geometric mean itself: the product a0*a1 may under/overflow
@@ -465,7 +505,7 @@ def check_gm(ctx, values0, values1, n_cyc, b, result):
 
 
 def check_comb(ctx, values0, values1, n_cyc, b, result):
-    if hasattr(b, '__len__'):
+    if _bs(b)[1]:            # 1-D array / list / tuple; a 0-d array is a scalar form of b (round 5, item 28)
         ctx.observe('combined: array b (documented as float; not judged)')
         return
     c = _amp_common(ctx, 'combined', [values0, values1], n_cyc, b)
@@ -485,7 +525,7 @@ def check_comb(ctx, values0, values1, n_cyc, b, result):
     ctx.check(mono, 'combined.nondecreasing', lambda: W(got=got), 'combined amplitude series decreases or is not finite')
     first = None
     ok = False
-    for ref in _amp_refs(n, [d0[1], d1[1]], n_cyc, bj):
+    for ref in _amp_refs(n, [d0[1], d1[1]], n_cyc, bj, 'comb'):
         ok, idx, e, a = tol.worst(g, ref, scale=np.abs(ref), rtol=_rt(bj))
         if first is None:
             first = (ref, idx, e, a)
@@ -617,6 +657,55 @@ def install(ctx):
     attach.wrap(eqsig.im, AMP, _post_amp, pre=_pre, on_exception=_onex_for(AMP))
     attach.wrap(eqsig.im, GM, _post_gm, pre=_pre, on_exception=_onex_for(GM))
     attach.wrap(eqsig.im, COMB, _post_comb, pre=_pre, on_exception=_onex_for(COMB))
+    _probe_conventions(eqsig, ctx)
+
+
+# every probe has an excursion whose maximum is attained by several samples, so that 'first' and 'last' give different series
+PROBES = (np.array([1.0, 0.5, 1.0, -2.0, -2.0, 0.0, 3.0, 3.0, 1.0, 3.0]), np.array([2.0, 2.0, 2.0]),
+          np.array([0, -1, -1, -1, 0, 1, 0, 1, 0], dtype=np.int64), np.array([-3.0, 1.0, 1.0]), [0.5, 0.5])
+
+
+def _probe_conventions(eqsig, ctx):
+    """Audit item 33: fix the tie placement ('first' / 'last' sample attaining the maximum of an excursion) of THIS tree from
+    probe records, separately for the cycle count, the amplitude and the combined amplitude. The probe calls run through the
+    monitored functions (judged two-sided, CONV not yet set). Probes that disagree among themselves are a violation; a
+    probe matching neither convention has already been reported by the monitors (CONV stays open)."""
+    for k in CONV:
+        CONV[k] = None
+    seen = {'ncyc': [], 'amp': [], 'comb': []}
+    im = eqsig.im
+    for pr in PROBES:
+        vals = [float(v) for v in pr]
+        pk = C.excursion_peaks(vals)
+        n = len(vals)
+        for key, call, ref in (
+                ('ncyc', lambda: im.calc_n_cyc_array_w_power_law(pr, 1.5, 0.5, 0.0), lambda wh: C.n_cyc_series(n, pk, 1.5, 0.5, None, True, wh)),
+                ('amp', lambda: im.calc_cyc_amp_array_w_power_law(pr, 2.0, 0.5), lambda wh: C.cyc_amp_series(n, [pk], 2.0, 0.5, wh)),
+                ('comb', lambda: im.calc_cyc_amp_combined_arrays_w_power_law(pr, _copy(pr), 2.0, 0.5),
+                 lambda wh: C.cyc_amp_series(n, [pk, pk], 2.0, 0.5, wh))):
+            try:
+                got = np.asarray(call(), dtype=float).reshape(-1)
+            except Exception:
+                seen[key].append(frozenset())
+                continue
+            m = []
+            for wh in ('first', 'last'):
+                r = np.array(ref(wh))
+                if got.shape == r.shape and tol.close(got, r, scale=np.abs(r), rtol=1e-9):
+                    m.append(wh)
+            seen[key].append(frozenset(m))
+    for key, ms in seen.items():
+        if any(not m for m in ms):
+            ctx.observe('tie placement of %s left open: a probe matches neither convention (see the monitors)' % key)
+            continue
+        common = frozenset(('first', 'last')).intersection(*ms)
+        if ctx.check(bool(common), 'tie-placement: one convention per tree',
+                     lambda: {'fn': 'rel:probe', 'function': key, 'matched': [sorted(m) for m in ms]},
+                     '%s: the probe records %s follow different conventions for the sample at which a tied maximum is counted: %s'
+                     % (key, [list(np.asarray(q).tolist()) for q in PROBES], [sorted(m) for m in ms])):
+            CONV[key] = 'first' if 'first' in common else 'last'
+        else:
+            CONV[key] = sorted(ms[0])[0]        # the convention of the first (non-degenerate) probe judges every later call
 
 
 # ------------------------------------------------------------------------------------------------ monitored calls
@@ -1033,6 +1122,7 @@ def rel_bsizes(eqsig, ctx, x, y, a_ref, cut_off, n_cyc, bvec, perm, j):
 
 ALL6 = (DELTA, PSEUDO, NCYC, AMP, GM, COMB)
 REAL_FORMS = ('noncontig', 'reversed-view', 'readonly', 'list-float', 'tuple-float', 'mixed-list', 'float32', 'accsignal.values')
+BOOL_FORMS = ('bool', 'list-bool', 'tuple-bool', 'list-npbool', 'noncontig-bool', 'readonly-bool')
 INT_FORMS = ('int8', 'int16', 'int32', 'int64', 'uint8', 'uint16', 'int8-full', 'int16-full', 'int32-full', 'int64-full',
              'uint8-full', 'uint16-full', 'list-int', 'tuple-int', 'mixed-list', 'noncontig-int', 'readonly-int')
 
@@ -1043,6 +1133,23 @@ def make_forms(eqsig, label, x, y):
     float64 twin holds the same numbers) - sums and products of neighbouring samples then exceed the dtype."""
     def both(f):
         return f(x), f(y)
+    if label.endswith('bool'):      # round 5 (item 29): on/off records - the float64 twin is rebuilt from the form
+        def f(v):
+            m = np.asarray(v) > float(np.median(v))
+            if label == 'list-bool':
+                return [bool(u) for u in m]
+            if label == 'tuple-bool':
+                return tuple(bool(u) for u in m)
+            if label == 'list-npbool':
+                return list(m)
+            if label == 'noncontig-bool':
+                big = np.zeros(2 * len(m), dtype=bool)
+                big[::2] = m
+                return big[::2]
+            if label == 'readonly-bool':
+                m.flags.writeable = False
+            return m
+        return both(f)
     if label.startswith('noncontig'):
         def f(v):
             big = np.zeros(2 * len(v), dtype=np.int64 if label.endswith('int') else float)
@@ -1384,8 +1491,8 @@ def rel_constant(eqsig, ctx, cval, n, form, a_ref, n_cyc, b, cut_off):
                           'constant record: amp(N=cycles(a_ref=%r)) = %r' % (a_ref, got))
 
 
-MIXED_REAL = ('f64', 'list', 'tuple', 'readonly', 'noncontig', 'float32')
-MIXED_INT = ('int64', 'list-int', 'tuple-int', 'int32', 'f64', 'list')
+MIXED_REAL = ('f64', 'list', 'tuple', 'readonly', 'noncontig', 'float32', 'bool')
+MIXED_INT = ('int64', 'list-int', 'tuple-int', 'int32', 'f64', 'list', 'bool')
 
 
 def _one_form(v, label):
@@ -1405,6 +1512,8 @@ def _one_form(v, label):
         return big[1::3]
     if label == 'float32':
         return np.asarray(v, dtype=np.float32)
+    if label == 'bool':         # on/off version of the record (round 5)
+        return np.asarray(v) > float(np.median(v))
     if label == 'int64':
         return np.asarray(v).astype(np.int64)
     if label == 'int32':
@@ -1437,6 +1546,154 @@ def rel_mixed(eqsig, ctx, x, y, lx, ly, n_cyc, b):
                   '%s on components held as %s / %s differs from the float64 arrays of the same numbers' % (fname, lx, ly))
 
 
+# ------------------------------------------------------------------------------ round 5 (audit items 28, 29, 32, 33)
+F32_B = (0.0625, 0.125, 0.25, 0.5, 1.0)
+
+
+def _f32(v):
+    return float(np.float32(v))
+
+
+def rel_scalarforms(eqsig, ctx, x, y, a_ref, b, cut_off, n_cyc):
+    """Audit item 28: every numeric option as np.float32 scalar, 0-d float64 / float32 array (the SAME mutable objects through
+    the four functions in turn; the purity monitors snapshot them), np.int64 scalar, 0-d int64 array, and b = 1 / cut_off = 0
+    as True / False, np.True_ / np.False_, 0-d bool arrays - must give the result of the plain python floats. Range of
+    validity: the values are float32-representable and b is a power of two, so that 1/b formed from a float32 b is exact
+    (a float32 b = 0.3 carries 24 bits and cannot meet the 1e-9 of the monitors: kept out, not judged looser)."""
+    a, nc, cu = _f32(a_ref), _f32(n_cyc), _f32(cut_off)
+    if cu > 0.1:
+        cu = 0.09375
+    ai, ni = int(min(max(1, round(a_ref)), 2 ** 53)), int(max(1, round(n_cyc)))
+    if not (_in_range(ctx, 'scalar-form', [x, y], [b, 1.0]) and _in_range(ctx, 'scalar-form', [x], [b, 1.0], a)
+            and _in_range(ctx, 'scalar-form', [x], [1.0], float(ai))):
+        return
+    W = lambda **kw: _wit('rel:scalarforms', x=x, y=y, a_ref=a_ref, b=b, cut_off=cut_off, n_cyc=n_cyc, **kw)
+    N, A = _ncyc(eqsig, ctx, x, a, b, cu), _amp(eqsig, ctx, x, nc, b)
+    G, Cb = _gm(eqsig, ctx, x, y, nc, b), _comb(eqsig, ctx, x, y, nc, b)
+    f4 = np.float32
+    _same(ctx, _ncyc(eqsig, ctx, x, f4(a), f4(b), f4(cu)), N, 'ncyc(np.float32 scalars)', W)
+    _same(ctx, _amp(eqsig, ctx, x, f4(nc), f4(b)), A, 'amp(np.float32 scalars)', W)
+    _same(ctx, _gm(eqsig, ctx, x, y, f4(nc), f4(b)), G, 'gm(np.float32 scalars)', W)
+    _same(ctx, _comb(eqsig, ctx, x, y, f4(nc), f4(b)), Cb, 'combined(np.float32 scalars)', W)
+    for dt in (float, np.float32):
+        a0, b0, c0, n0 = np.array(a, dtype=dt), np.array(b, dtype=dt), np.array(cu, dtype=dt), np.array(nc, dtype=dt)
+        nm = np.dtype(dt).name
+        _same(ctx, _ncyc(eqsig, ctx, x, a0, b0, c0), N, 'ncyc(0-d %s arrays)' % nm, W)
+        _same(ctx, _comb(eqsig, ctx, x, y, n0, b0), Cb, 'combined(0-d %s arrays)' % nm, W)
+        _same(ctx, _gm(eqsig, ctx, x, y, n0, b0), G, 'gm(0-d %s arrays)' % nm, W)
+        _same(ctx, _amp(eqsig, ctx, x, n0, b0), A, 'amp(0-d %s arrays, reused)' % nm, W)
+        _same(ctx, _ncyc(eqsig, ctx, x, a0, b0, c0), N, 'ncyc(0-d %s arrays, reused)' % nm, W)
+    N1, A1 = _ncyc(eqsig, ctx, x, float(ai), 1.0, 0.0), _amp(eqsig, ctx, x, float(ni), 1.0)
+    G1, C1 = _gm(eqsig, ctx, x, y, float(ni), 1.0), _comb(eqsig, ctx, x, y, float(ni), 1.0)
+    i8 = np.int64
+    for av, nv, one, zero, nm in ((i8(ai), i8(ni), i8(1), i8(0), 'np.int64 scalars'),
+                                  (np.array(ai), np.array(ni), np.array(1), np.array(0), '0-d int64 arrays'),
+                                  (ai, ni, True, False, 'python ints, b=True, cut_off=False'),
+                                  (i8(ai), np.int32(min(ni, 2 ** 31 - 1)), np.True_, np.False_, 'np.True_ / np.False_'),
+                                  (np.array(float(ai)), np.array(float(ni)), np.array(True), np.array(False), '0-d bool arrays')):
+        if nm.startswith('np.True_') and ni > 2 ** 31 - 1:
+            continue
+        _same(ctx, _ncyc(eqsig, ctx, x, av, one, zero), N1, 'ncyc(%s)' % nm, W)
+        _same(ctx, _amp(eqsig, ctx, x, nv, one), A1, 'amp(%s)' % nm, W)
+        _same(ctx, _gm(eqsig, ctx, x, y, nv, one), G1, 'gm(%s)' % nm, W)
+        _same(ctx, _comb(eqsig, ctx, x, y, nv, one), C1, 'combined(%s)' % nm, W)
+
+
+def rel_owned(eqsig, ctx, fname, x, px):
+    """Audit item 32: a result belongs to the caller. It shares no memory with an argument; the caller overwrites every entry
+    of it; the arguments are untouched by that; the same call made again gives the first value bit for bit (a table handed
+    out by reference from a memo / lru_cache would hand back the overwritten entries)."""
+    if fname == NCYC and not _in_range(ctx, 'owned', [x], px[1], px[0]):
+        return
+    if fname == AMP and not _in_range(ctx, 'owned', [x], px[1]):
+        return
+    if fname in (GM, COMB) and not _in_range(ctx, 'owned', [x, px[0]], px[2]):
+        return
+    r1 = _invoke(eqsig, ctx, fname, x, px)
+    if r1 is None:
+        return
+    keep = r1.copy()
+    arrs = [a for a in [x] + list(px) if isinstance(a, np.ndarray)]
+    snaps = [_snap(a) for a in arrs]
+    by_id = {id(a): sn for a, sn in zip(arrs, snaps)}
+    orig = lambda a: _restore(a, by_id[id(a)]) if isinstance(a, np.ndarray) else a      # the values at call entry
+    shared = any(np.shares_memory(r1, a) for a in arrs)
+    if r1.flags.writeable:
+        r1[...] = -7.25
+    else:
+        ctx.observe('owned: read-only result (not overwritten)')
+    intact = all(_unchanged(a, sn) for a, sn in zip(arrs, snaps))
+    r2 = _invoke(eqsig, ctx, fname, x, px) if intact else None
+    ok = (not shared) and intact and r2 is not None and r2.shape == keep.shape and r2.tobytes() == keep.tobytes()
+    ctx.check(ok, 'result.owned-by-caller',
+              lambda: _wit('rel:owned', fname=fname, x=orig(x), px=[orig(a) for a in px], first=keep, again=r2,
+                           shares_memory_with_argument=shared, arguments_intact=intact),
+              '%s: after the caller overwrote the first result the same call gives something else / the result shares memory '
+              'with an argument (shared=%s, arguments intact=%s)' % (fname, shared, intact))
+
+
+TINY_FORMS = ('f64', 'int64', 'list-float', 'list-int', 'tuple-float', 'float32', 'bool', 'list-bool', 'readonly')
+
+
+def _tiny_form(vals, form):
+    if form in ('bool', 'list-bool'):
+        v = [bool(u) for u in vals]
+        return np.array(v, dtype=bool) if form == 'bool' else v
+    if form in ('int64', 'list-int'):
+        v = [int(u) for u in vals]
+        return np.array(v, dtype=np.int64) if form == 'int64' else v
+    if form == 'list-float':
+        return [float(u) for u in vals]
+    if form == 'tuple-float':
+        return tuple(float(u) for u in vals)
+    a = np.array(vals, dtype=np.float32 if form == 'float32' else float)
+    if form == 'readonly':
+        a.flags.writeable = False
+    return a
+
+
+def rel_tiny(eqsig, ctx, vals, form, a_rel, n_cyc, b, cut_off):
+    """Audit item 29: one-sample and two-sample records through every function (a one-sample record has no step but one half
+    cycle when non-zero: reductions of empty slices, squeezed axes, 'a lone sample spans nothing' guards). Values are judged
+    by the monitors; here: every function returns, with the record's length, finite values."""
+    x = _tiny_form(vals, form)
+    held = np.asarray(x, dtype=float).tolist()
+    n = len(held)
+    pk = C.excursion_peaks(held)
+    bs = _bs(b)[0]
+    gmax = max([m for (_f, _l, m) in pk], default=0.0)
+    a_ref = a_rel * (gmax if gmax > 0 else 1.0)
+    if not (_range_ok(pk, a_ref, bs) and _range_ok(pk, 1.0, bs)):
+        ctx.observe('tiny: powers outside [1e-280,1e280] (not judged)')
+        return
+    res = []
+    if n > 1 and min(held) != max(held):
+        res += [_series_fn(eqsig, ctx, DELTA, x), _series_fn(eqsig, ctx, PSEUDO, x)]
+    res += [_ncyc(eqsig, ctx, x, a_ref, b, cut_off), _amp(eqsig, ctx, x, n_cyc, b), _gm(eqsig, ctx, x, _copy(x), n_cyc, b)]
+    if not hasattr(b, '__len__'):
+        res.append(_comb(eqsig, ctx, x, x, n_cyc, b))
+    ok = all(r is not None and r.ndim >= 1 and r.shape[0] == n and bool(np.all(np.isfinite(r))) for r in res)
+    ctx.check(ok, 'short-record(1-2 samples): finite result of the record length',
+              lambda: _wit('rel:tiny', vals=vals, form=form, a_rel=a_rel, n_cyc=n_cyc, b=b, cut_off=cut_off,
+                           shapes=[None if r is None else list(r.shape) for r in res]),
+              'record %r (%s): result shapes %s' % (held, form, [None if r is None else r.shape for r in res]))
+
+
+def draw_tiny(rng, form):
+    """One- or two-sample record as python floats (0/1 for the bool forms, integers for the integer forms)."""
+    k = int(rng.integers(8))
+    if form in ('bool', 'list-bool'):
+        return [[1.0], [0.0], [0.0, 1.0], [1.0, 0.0], [1.0, 1.0], [0.0, 0.0], [1.0], [0.0, 1.0]][k]
+    c = float(rng.integers(1, 90)) * float(rng.choice([-1.0, 1.0]))
+    d = float(rng.integers(1, 90))
+    if form not in ('int64', 'list-int'):
+        s = float(10.0 ** rng.uniform(-6, 6))
+        c, d = c * s * float(rng.uniform(0.5, 1.0)), d * s * float(rng.uniform(0.5, 1.0))
+        if form == 'float32':
+            c, d = _f32(c), _f32(d)
+    return [[c], [0.0], [c, c], [c, -c], [0.0, c], [c, 0.0], [c, d], [c, -d]][k]
+
+
 RELATIONS = {'rel:enum': lambda e, c, w: rel_enum(e, c, w['fname'], tuple(w['seq']), w['k'], w.get('with_int', True)),
              'rel:shift': lambda e, c, w: rel_shift(e, c, w['fname'], w['x'], w['c']),
              'rel:form': lambda e, c, w: rel_form(e, c, w['label'], w['x'], w['y'], w['a_rel'], w['b'], w['cut_off'], w['n_cyc']),
@@ -1445,6 +1702,10 @@ RELATIONS = {'rel:enum': lambda e, c, w: rel_enum(e, c, w['fname'], tuple(w['seq
              'rel:rejected': lambda e, c, w: rel_rejected(e, c, w['fname'], w['x'], w['px'], w['kind']),
              'rel:silent': lambda e, c, w: rel_silent(e, c, w['x'], w['zform'], w['a_ref'], w['n_cyc'], w['b'], w['cut_off']),
              'rel:constant': lambda e, c, w: rel_constant(e, c, w['cval'], w['n'], w['form'], w['a_ref'], w['n_cyc'], w['b'], w['cut_off']),
+             'rel:probe': lambda e, c, w: None,       # install() re-runs the probes on the current tree
+             'rel:scalarforms': lambda e, c, w: rel_scalarforms(e, c, w['x'], w['y'], w['a_ref'], w['b'], w['cut_off'], w['n_cyc']),
+             'rel:owned': lambda e, c, w: rel_owned(e, c, w['fname'], w['x'], w['px']),
+             'rel:tiny': lambda e, c, w: rel_tiny(e, c, w['vals'], w['form'], w['a_rel'], w['n_cyc'], w['b'], w['cut_off']),
              'rel:mixed': lambda e, c, w: rel_mixed(e, c, w['x'], w['y'], w['lx'], w['ly'], w['n_cyc'], w['b']),
              'raised-call': lambda e, c, w: _replay_raised(e, c, w),
              'rel:optform': lambda e, c, w: rel_optform(e, c, w['x'], w['y'], w['a_ref'], w['b'], w['b2'], w['cut_off'], w['n_cyc']),
@@ -1714,6 +1975,16 @@ def audit_block(eqsig, ctx, x, integer, rng, c):
     nb = int(rng.choice(B_SIZES[:7] if c % 4 else B_SIZES[7:]))
     bvec = draw_bvec(rng, nb)
     rel_bsizes(eqsig, ctx, x, y, a_rel * gmax, cut, n_cyc, bvec, rng.permutation(nb), int(rng.integers(nb)))
+    # round 5: on/off (bool) forms of the two records; scalar forms of the options; ownership of the results; tiny records
+    rel_form(eqsig, ctx, BOOL_FORMS[c % len(BOOL_FORMS)], x, y, a_rel, b, cut, n_cyc)
+    rel_scalarforms(eqsig, ctx, x, y, a_rel * gmax, F32_B[c % len(F32_B)], cut, n_cyc)
+    xo, yo = (x, y) if c % 3 else (tuple(x.tolist()), tuple(y.tolist()))       # tuples + scalar options: hashable arguments
+    bo = np.array([b, b2]) if c % 3 else (b, b2)
+    for fname, px in ((DELTA, []), (PSEUDO, []), (NCYC, [a_rel * gmax, b, cut]), (NCYC, [a_rel * gmax, bo, cut]), (AMP, [n_cyc, b]),
+                      (AMP, [n_cyc, bo]), (GM, [yo, n_cyc, b]), (GM, [yo, n_cyc, bo]), (COMB, [yo, n_cyc, b])):
+        rel_owned(eqsig, ctx, fname, xo, px)
+    for form in (TINY_FORMS[c % len(TINY_FORMS)], TINY_FORMS[(c + 4) % len(TINY_FORMS)]):
+        rel_tiny(eqsig, ctx, draw_tiny(rng, form), form, a_rel, n_cyc, b if c % 4 else np.array([b, b2, 1.0]), cut)
     if c % 2 == 0:
         rel_optform(eqsig, ctx, x, y, a_rel * gmax, b, b2, cut, n_cyc)
     else:
@@ -1998,7 +2269,7 @@ def silent_block(eqsig, ctx, x, rng, c):
     cval = float(rng.integers(1, 90)) * float(rng.choice([-1.0, 1.0]))
     if form in ('f64', 'list-float', 'tuple-float') and rng.random() < 0.7:
         cval = float(rng.normal()) * float(10.0 ** rng.uniform(-6, 6)) or 1.0
-    m = int(rng.choice([2, 3, 7, 50]))
+    m = int(rng.choice([1, 2, 3, 7, 50]))       # round 5: one-sample records
     rel_constant(eqsig, ctx, cval, m, form, abs(cval) * float(10.0 ** rng.uniform(-1, 1.5)), n_cyc, b, cut)
     rel_constant(eqsig, ctx, cval, m, form, abs(cval) * float(10.0 ** rng.uniform(-1, 1.5)), n_cyc, bv, cut)
     # strictly one-signed records through all six functions
